@@ -706,6 +706,79 @@ pub fn main(opts: &Opts) {
             }
         }
     }
+    // A long-lived session: thousands of requests on ONE session, and throughout its life the pattern
+    // "X and Y outstanding, Y is awaited first (its future parks X's reply), a further request Z is sent,
+    // then X is awaited". Whatever bookkeeping a session does as it ages (pruning, compaction, counters
+    // that wrap) must not touch a reply that is parked for a caller who has not collected it yet.
+    let replay_long = opts
+        .replay
+        .as_ref()
+        .map(|p| std::fs::read_to_string(p).unwrap_or_default().contains("case\tlongsession;"))
+        .unwrap_or(false);
+    if replay_long || (opts.replay.is_none() && !only_drop && !opts.extra.iter().any(|e| e == "only-close")) {
+        let rounds = if opts.thorough() { 22000 } else { 2200 };
+        let case = format!("longsession;rounds={rounds}");
+        progress(&case);
+        let rt = tokio::runtime::Builder::new_current_thread().enable_all().build().unwrap();
+        let out: Result<(), String> = rt.block_on(async {
+            let (t, peer) = mt::new();
+            peer.deliver(mt::hello(&[mt::CAP_BASE10], 4));
+            let mut s = Session::verif_new(t).await.map_err(|e| format!("session: {e}"))?;
+            let mut nsent = 1usize; // the client's hello
+            let reply = |id: &str, v: usize| {
+                format!(
+                    "<rpc-reply xmlns=\"{}\" message-id=\"{id}\"><data>{v}</data></rpc-reply>]]>]]>",
+                    mt::BASE_NS
+                )
+            };
+            let limit = std::time::Duration::from_secs(3);
+            for r in 0..rounds {
+                let fx = s.rpc::<Get, _>(|b| b.finish()).await.map_err(|e| format!("round {r}: rpc X: {e}"))?;
+                let fy = s.rpc::<Get, _>(|b| b.finish()).await.map_err(|e| format!("round {r}: rpc Y: {e}"))?;
+                let sent = peer.sent();
+                let idx = mt::message_id_of(&sent[nsent]).unwrap_or_default();
+                let idy = mt::message_id_of(&sent[nsent + 1]).unwrap_or_default();
+                nsent += 2;
+                peer.deliver(reply(&idx, 3 * r));
+                peer.deliver(reply(&idy, 3 * r + 1));
+                let y = tokio::time::timeout(limit, fy).await.map_err(|_| format!("round {r}: Y pending"))?;
+                if y.as_ref().map(|v| v.to_string()).ok() != Some((3 * r + 1).to_string()) {
+                    return Err(format!("round {r} (request {}): Y got {:?}", nsent - 1, y.map(|v| v.to_string()).map_err(|e| e.to_string())));
+                }
+                let fz = s.rpc::<Get, _>(|b| b.finish()).await.map_err(|e| format!("round {r}: rpc Z: {e}"))?;
+                let idz = mt::message_id_of(&peer.sent()[nsent]).unwrap_or_default();
+                nsent += 1;
+                peer.deliver(reply(&idz, 3 * r + 2));
+                let x = tokio::time::timeout(limit, fx).await.map_err(|_| format!("round {r}: X pending"))?;
+                if x.as_ref().map(|v| v.to_string()).ok() != Some((3 * r).to_string()) {
+                    return Err(format!(
+                        "round {r} (request {} of the session): the parked reply of X was not delivered: {:?}",
+                        nsent - 3,
+                        x.map(|v| v.to_string()).map_err(|e| e.to_string())
+                    ));
+                }
+                let z = tokio::time::timeout(limit, fz).await.map_err(|_| format!("round {r}: Z pending"))?;
+                if z.as_ref().map(|v| v.to_string()).ok() != Some((3 * r + 2).to_string()) {
+                    return Err(format!("round {r}: Z got {:?}", z.map(|v| v.to_string()).map_err(|e| e.to_string())));
+                }
+            }
+            Ok(())
+        });
+        progress_idle();
+        if let Err(e) = &out {
+            sink.sample(format!("{case} -> {e}"));
+        }
+        sink.direct(
+            &case,
+            match &out {
+                Ok(()) => "ok".to_string(),
+                Err(e) if e.contains("parked reply") => "violation parked-reply-lost-in-long-session".to_string(),
+                Err(e) if e.contains("pending") => "violation request-not-completed-in-long-session".to_string(),
+                Err(_) => "violation wrong-reply-in-long-session".to_string(),
+            },
+        );
+        sink.add("longsession.requests", 3 * rounds as u64);
+    }
     sink.write(opts, "sched");
 }
 
